@@ -70,7 +70,7 @@ ListsEncST == { <<23>>, <<24>>, <<25>>, <<26>>, <<23, 24>> }
 ActMix == {1, 6, 8, 13}
 ListsMix == { <<>>, <<1>>, <<6>>, <<8>>, <<1, 13>>, <<13>>, <<6, 8>> }
 \* simulation: everything
-ListsAll == { <<>> } \cup { <<t>> : t \in AllTx \ {11, 13, 15} } \cup { <<1, 13>>, <<4, 15>>, <<5, 15>>, <<2, 14>>, <<6, 8>>, <<9, 6>>, <<23, 25>> }
+ListsAll == { <<>> } \cup { <<t>> : t \in {1, 2, 4, 5, 6, 8, 9, 10, 12, 14, 16, 18, 19, 22, 23, 24, 25, 27} } \cup { <<1, 13>>, <<4, 15>>, <<2, 14>>, <<6, 8>>, <<23, 25>>, <<16, 23>> }
 FH1 == [CLTV |-> 106]
 FH2 == [CLTV |-> 106, CSV |-> 107]
 ====
